@@ -126,6 +126,12 @@ func (nd *ndArrayTypeC) Reshape(newShape []int) (data.NDArrayType, error) {
 		return nil, errors.New("Size mismatch")
 	}
 
+	if !nd.Contiguous() {
+		// a non-contiguous view of C memory cannot be re-strided in place: gather its
+		// elements in row-major order, as the Go-backed arrays do
+		return data.ArrayFromSliceArrayType(nd.Unroll(), newShape), nil
+	}
+
 	reshapeToSeries := (len(newShape) == 1) && (data.Maximum(nd.Shape()) == len(newShape))
 
 	if nd.Contiguous() || !reshapeToSeries {
